@@ -1066,6 +1066,7 @@ func runL1(r *vf.Run) {
 		}
 		if strings.HasPrefix(head, "panic: harness:") || harnessPanic(res.Stderr) {
 			fmt.Fprintf(os.Stderr, "c22: harness failure in the L1 child:\n%s\n", tailStr(string(res.Stderr), 3000))
+			_ = os.RemoveAll(tmp)
 			os.Exit(3)
 		}
 		if head != "" && !res.TimedOut {
